@@ -13,5 +13,5 @@ fi
 if [ -n "$DRILL_TESTS" ]; then (cd "$D" && env -u NSL_VERIF /venv/bin/python -m pytest -q -p no:cacheprovider -x 2>&1 | tail -2); fi
 cd /verif
 set +e
-NSL_VERIF_REPO="$D" /venv/bin/python run.py "$CHECK" --tier "$TIER" 2>&1 | tail -${DRILL_TAIL:-8}
+NSL_VERIF_EVIDENCE_DIR="$D/_evidence" NSL_VERIF_REPO="$D" /venv/bin/python run.py "$CHECK" --tier "$TIER" 2>&1 | tail -${DRILL_TAIL:-8}
 echo "exit=${PIPESTATUS[0]}"
